@@ -1,7 +1,7 @@
 SPECIFICATION Spec
 CONSTANTS
   Ids = {1, 2, 3, 4, 5}
-  Roots = {0, 9}
+  Roots = {0}
   ExpiredEpoch = 6
   N = 5
   EpochSet = {0, 1}
